@@ -7,7 +7,8 @@ Lemma sig_cli_ok s o :
   sig_cli s = Ok o ->
   exists c, add_args empty_ctx (get_arguments s) = Ok c /\
             o = mkCli (get_arguments s) (x_flags c) (x_flag_aliases c) (x_inverse c)
-                      (x_positional c) (as_kwargs c) (bind_ok (s_params s) (as_kwargs c)).
+                      (x_positional c) (as_kwargs c) (bind_ok (s_params s) (as_kwargs c))
+                      (map (kind_name_of_arg s) (get_arguments s)) (map takes_value (get_arguments s)).
 Proof.
   unfold sig_cli. destruct (add_args empty_ctx (get_arguments s)) as [c|e]; [|discriminate].
   intros H; injection H as <-. now exists c.
